@@ -171,3 +171,51 @@ def window_schedules(nthreads, prof, max_r=12, slack=8):
                             s += [t] * (prof[t][0] + slack)
                         s += [v] * (prof[v][0] + 3 * slack) + [a] * (prof[a][0] + 3 * slack)
                         yield "w_v%d@%d_a%d@%d_r%d" % (v, pv, a, pa, r), s
+
+
+def phased_schedules(model_exe, workdir, cases_phases, fuel=40000, tag="phase"):
+    """Model-guided construction of schedules that run a scenario phase by phase.
+    cases_phases: list of (case, phases) with case = {id, cfg, threads} and phases = [(tid, upto)] meaning 'run thread
+    tid until it has completed its first `upto` operations'.  The number of steps each phase needs is measured on the
+    extracted model: phase i is measured by running the case with every program truncated to the operations completed
+    so far (the truncated thread runs to its end, everything else already has).  All cases are advanced together: one
+    model process per phase index.  Returns {case id: schedule} (threads run to completion in index order afterwards)."""
+    state = {}
+    for c, ph in cases_phases:
+        n = len(c["threads"])
+        state[c["id"]] = {"c": c, "ph": list(ph), "done": [0] * n, "used": [0] * n, "sched": [], "inprog": [0] * n}
+    rnd = 0
+    while True:
+        batch = []
+        for cid, s in state.items():
+            if rnd < len(s["ph"]):
+                t, upto = s["ph"][rnd]
+                if isinstance(upto, tuple):
+                    # ("raw", r): r more steps of thread t inside its next operation (no measurement needed)
+                    s["sched"] += [t] * upto[1]
+                    s["used"][t] += upto[1]
+                    s["inprog"][t] = 1
+                    continue
+                thr = [s["c"]["threads"][i][:s["done"][i] + s["inprog"][i]] for i in range(len(s["done"]))]
+                thr[t] = s["c"]["threads"][t][:upto]
+                batch.append({"id": cid, "cfg": s["c"]["cfg"], "threads": thr, "sched": s["sched"] + [t] * 4000})
+        if not batch:
+            if any(rnd < len(s["ph"]) for s in state.values()):
+                rnd += 1
+                continue
+            break
+        cf = os.path.join(workdir, "%s_%d.txt" % (tag, rnd))
+        write_cases(cf, batch)
+        rc, out = vcheck.sh("%s %d < %s" % (model_exe, fuel, cf), timeout=300)
+        logs = parse_logs(out)
+        for b in batch:
+            s = state[b["id"]]
+            t, upto = s["ph"][rnd]
+            lg = logs.get(b["id"])
+            cnt = len(thread_steps(lg["lines"], t)) if lg else s["used"][t]
+            s["sched"] += [t] * max(0, cnt - s["used"][t])
+            s["used"][t] = max(cnt, s["used"][t])
+            s["done"][t] = upto
+            s["inprog"][t] = 0
+        rnd += 1
+    return {cid: s["sched"] for cid, s in state.items()}
